@@ -15,7 +15,7 @@ From Coq Require Import ZArith List Bool.
 From Low Require Import Lib.BitSeq Lib.Bytes Model.Pbcmpl Model.LegacyPbcmpl Spec.PbcmplSpec
   Proofs.PbcmplIO Proofs.PbcmplHeader Proofs.PbcmplProofs Proofs.PbcmplMarshal
   Proofs.PbcmplFrames Proofs.PbcmplStream Proofs.PbcmplHistory Proofs.PbcmplLegacy.
-From Low Require Import Lib.Val Run.PbcmplOps Model.PbcmplWalk Spec.PbcmplWalkSpec Proofs.PbcmplWalk.
+From Low Require Import Lib.Val Run.PbcmplOps Model.PbcmplWalk Spec.PbcmplWalkSpec Proofs.PbcmplWalk Run.PbcmplWalkOps Proofs.PbcmplOpsC07.
 Import ListNotations.
 Open Scope Z_scope.
 
@@ -243,6 +243,12 @@ Theorem C07_walk_exact : forall cs t,
     /\ spec_Walk (concat cs) t = (steps, concat cs').
 Proof. exact c_Walk_spec. Qed.
 Print Assumptions C07_walk_exact.
+
+Theorem C07_op_walk : forall s pat t,
+  bytes_ok s -> all_pos pat = true -> zlen s < 2 ^ 63 ->
+  v_walk_model (chunks_of pat s, t) = v_walk_spec s t.
+Proof. exact v_walk_model_spec. Qed.
+Print Assumptions C07_op_walk.
 
 Example C07_walk_nonvacuous :
   let eof := {| t_err := EEOF; t_with_last := false |} in
